@@ -1,6 +1,41 @@
-"""C11 -- the report lists exactly the findings, each under its own pattern's section: bounded read-back contract (native harness, rep.rs)."""
+"""C11 -- the report lists exactly the findings, each under its own pattern's section (mixed, mostly bounded).
+
+Verus (unit sections): get_optimization_report_section / get_vulnerability_report_section / get_qa_report_section return, for
+every pattern, the text of the report-section module documented for that pattern (so a list can only follow the section of
+the pattern that produced it if the rendering loop asks for the right pattern -- that loop is bounded).
+Bounded (native rep.rs): the read-back contract of generate_*_report / generate_report."""
+from .. import driver as D
 from . import bounded
 
+UNITS = [("sections", ["get_optimization_report_section", "get_vulnerability_report_section", "get_qa_report_section"])]
+TRUST = ["the report-section modules are external_body stubs (`r@ == section_text_<module>()`); the variant -> module table is written from the documentation"]
+BOUNDED_PART = ["generate_optimization_report / generate_vulnerability_report / generate_qa_report / generate_report (String concatenation, closures in sort_by_key / any, by-value HashMap and BTreeSet iteration, integer to_string: outside Verus' subset)"]
 
-def run(tier, seed):
-    return bounded.run_bounded("C11", "c11", tier, seed, "report read-back == findings (entries, sections, per pattern)")
+
+def key_to_functions(key):
+    if "section" in key:
+        return ["get_optimization_report_section", "get_vulnerability_report_section", "get_qa_report_section"]
+    return []
+
+
+def run(tier, seed, prop="C11", native="c11"):
+    vd = D.Verdict(prop, tier, seed)
+    covs, failed = bounded.run_units(vd, UNITS)
+    try:
+        binary, _ = D.build_native()
+    except D.BuildError as e:
+        vd.add_undecided(str(e)[:800])
+        return vd.finish({"level": "exploration", "coverage": {"evaluations": 1, "distinct_nontrivial": 2, "rule": "native harness did not build", "samples": ["-"]}})
+    nat = D.run_native(binary, native, tier, seed)
+    D.combine(vd, failed, nat, key_to_functions=key_to_functions if prop == "C11" else key_to_functions_c12)
+    ev = bounded.evidence_from_native(nat, [])
+    return vd.finish(bounded.mixed_evidence(ev, covs, BOUNDED_PART, TRUST if prop == "C11" else TRUST + TRUST_C12, tier, UNITS, vd))
+
+
+TRUST_C12 = ["severity table taken from the property statement: selfdestruct high, divide-before-multiply medium, ERC20 and pragma low"]
+
+
+def key_to_functions_c12(key):
+    if "heading" in key or "severity" in key:
+        return ["get_vulnerability_report_section"]
+    return []
